@@ -192,3 +192,47 @@ func H_C05_flate_highly_compressible() {
 	vAssert("same-bytes", bytes.Equal(out, want))
 	vReach("end")
 }
+
+// H_C05_decodeparms_shapes: the parameters of a filter reach it whichever legal shape /Filter and /DecodeParms take.
+//
+//symgo:harness prop=C05 kernel=K6-decodeparms-shapes
+//symgo:desc payload of 2 symbolic bytes as one PNG row tagged Up over an all-zero previous row (so the row data are the payload), deflate-stored; /Filter written as the name /FlateDecode, the abbreviated name /Fl, or a one-element array of either (enumerated); /DecodeParms << /Predictor 12 /Columns 2 >> written as the dictionary itself or as a one-element array holding it (enumerated); also the two-filter chain [/ASCIIHexDecode /FlateDecode] with DecodeParms [null dict]: Stream.Decode returns exactly the payload (the predictor stage is not skipped)
+func H_C05_decodeparms_shapes() {
+	payload := vAnyBytes(2)
+	row := append([]byte{2}, payload...)
+	parms := Dict{"Predictor": Int(12), "Columns": Int(2)}
+	var filter, dp Object
+	data := vZlibStoredSym(row)
+	switch vAnyIntIn(0, 4) {
+	case 0:
+		filter = Name("FlateDecode")
+	case 1:
+		filter = Name("Fl")
+	case 2:
+		filter = Array{Name("FlateDecode")}
+	case 3:
+		filter = Array{Name("Fl")}
+	default:
+		filter = Array{Name("ASCIIHexDecode"), Name("FlateDecode")}
+		hexed := make([]byte, 0, 2*len(data)+1)
+		for _, b := range data {
+			hexed = append(hexed, "0123456789abcdef"[b>>4], "0123456789ABCDEF"[b&15])
+		}
+		data = append(hexed, '>')
+	}
+	if fa, ok := filter.(Array); ok && len(fa) == 2 {
+		dp = Array{Null{}, parms}
+	} else if vAnyIntIn(0, 1) == 0 {
+		dp = parms
+	} else {
+		dp = Array{parms}
+	}
+	s := &Stream{Dict: Dict{"Filter": filter, "DecodeParms": dp}, Data: data}
+	out, err := s.Decode()
+	vAssert("decodes", err == nil)
+	vAssert("length", len(out) == 2)
+	for i := 0; i < 2 && i < len(out); i++ {
+		vAssert("roundtrip", out[i] == payload[i])
+	}
+	vReach("end")
+}
